@@ -191,6 +191,7 @@ fn helper_defs() -> Vec<Def> {
         name: n.into(),
         skipped: false,
         config: false,
+        compactable: false,
     };
     let f = |n: &str, t: Ty| FieldDef {
         name: Some(n.into()),
@@ -223,6 +224,7 @@ fn member_def(m: &Member, is_enum: bool, named: bool) -> Def {
             name: ["T", "U"][i].into(),
             skipped: (mask >> i) & 1 == 1,
             config: false,
+            compactable: false,
         })
         .collect();
     let fs: Vec<FieldDef> = m
@@ -438,6 +440,7 @@ fn probe_family(which: &str) -> Result<(), Failure> {
         name: n.into(),
         skipped: false,
         config: false,
+        compactable: false,
     };
     let foo = |params: Vec<ParamDecl>, fields: Vec<FieldDef>| Def {
         path: vec!["m".into(), "Foo".into()],
